@@ -551,7 +551,8 @@ impl Stream {
     }
     
     /// Read entries for a consumer group: `after_id` is None for ">" (new entries only),
-    /// or the explicit ID after which the consumer's own pending entries are read again
+    /// or the explicit ID after which the consumer's own pending entries are read again.
+    /// Returns the entries and whether the read changed the group (what WATCH has to see)
     pub fn read_group(
         &self,
         group_name: &str,
@@ -559,7 +560,7 @@ impl Stream {
         after_id: Option<StreamId>,
         count: Option<usize>,
         noack: bool
-    ) -> Result<Vec<StreamEntry>, String> {
+    ) -> Result<(Vec<StreamEntry>, bool), String> {
         // Get the consumer group
         let group = self.consumer_groups.get_group(group_name)
             .ok_or_else(|| format!("NOGROUP No such consumer group {} for stream", group_name))?;
@@ -567,6 +568,9 @@ impl Stream {
         // An explicit ID reads the consumer's own history: its pending entries after that ID.
         // Nothing new becomes pending and the group's last delivered ID does not move.
         if let Some(after_id) = after_id {
+            // The read registers a consumer it does not know yet and counts one more
+            // delivery for every ID it delivers again, whether or not the entry is still there
+            let created = group.create_consumer(consumer_name.to_string());
             let ids = group.redeliver_pending(consumer_name, after_id, count);
             let data = self.data.lock().unwrap();
             let entries: Vec<StreamEntry> = ids
@@ -577,7 +581,7 @@ impl Stream {
                         .map(|idx| data.entries[idx].clone())
                 })
                 .collect();
-            return Ok(entries);
+            return Ok((entries, created || !ids.is_empty()));
         }
         
         // ">" means only new entries: the ones after the group's last delivered ID
@@ -590,7 +594,7 @@ impl Stream {
         if !noack && !entries.is_empty() {
             // Add entries to pending unless NOACK
             let pending_entries = group.add_pending(consumer_name, entries.clone());
-            Ok(pending_entries)
+            Ok((pending_entries, true))
         } else {
             // NOACK: nothing becomes pending, but a ">" read still consumes the entries
             if after_id.is_none() {
@@ -600,7 +604,8 @@ impl Stream {
                     }
                 }
             }
-            Ok(entries)
+            let changed = !entries.is_empty();
+            Ok((entries, changed))
         }
     }
     
